@@ -96,7 +96,7 @@ fn level(ctxt: &ArrCtxt, other: &ArrCtxt, depth: usize, model: View) {
 }
 
 #[kani::proof]
-#[kani::unwind(8)]
+#[kani::unwind(13)]
 pub fn c03_q_nested_frames_depth2() {
     let ctxt = ArrCtxt::new();
     let other = ArrCtxt::new();
@@ -106,7 +106,7 @@ pub fn c03_q_nested_frames_depth2() {
 }
 
 #[kani::proof]
-#[kani::unwind(8)]
+#[kani::unwind(13)]
 pub fn c03_t_nested_frames_depth3() {
     let ctxt = ArrCtxt::new();
     let other = ArrCtxt::new();
@@ -131,7 +131,7 @@ impl<'a> Future for Checker<'a> {
 /// Two frame-wrapped futures polled in a symbolic order on the same context: each sees only its own
 /// frame while it is being polled; between polls (suspended) the outer view is back.
 #[kani::proof]
-#[kani::unwind(8)]
+#[kani::unwind(13)]
 pub fn c03_q_interleaved_futures() {
     let ctxt = ArrCtxt::new();
     let outer_own = sym_own();
@@ -171,7 +171,7 @@ pub fn c03_q_interleaved_futures() {
 
 /// `&C`, `Option<C>` wrappers of a context behave like the context (or like no context).
 #[kani::proof]
-#[kani::unwind(8)]
+#[kani::unwind(13)]
 pub fn c03_q_ctxt_wrappers() {
     let ctxt = ArrCtxt::new();
     let own = sym_own();
@@ -192,7 +192,7 @@ pub fn c03_q_ctxt_wrappers() {
 }
 
 #[kani::proof]
-#[kani::unwind(8)]
+#[kani::unwind(13)]
 pub fn c03_w_twin_root_inherits() {
     // false claim: a root frame also shows what was ambient when it was created
     let ctxt = ArrCtxt::new();
